@@ -373,6 +373,8 @@ def main():
         for m in prev["mutants"]:
             if m["status"] not in want or m.get("triage", "").startswith("equivalent"):
                 continue
+            if "--older-head" in args and m.get("repo_head") == _head():
+                continue  # recorded against the current repository head already
             site = {k: m[k] for k in ("file", "func", "op", "idx", "lineno", "desc")}
             try:
                 _, before, _ = build_mutant(site)
